@@ -4,7 +4,7 @@
     machine: state, [process] per selected day (returning the chunks it writes),
     [flush] at the end.  Row-level functions (what is computed) are kept apart
     from rendering (how it is printed).  Model only. *)
-From HP Require Import Base.Bytes Base.Utf8 Base.Num Model.Elements Model.Dates Model.Tree Model.Writer.
+From HP Require Import Base.Bytes Base.Utf8 Base.Num Model.Elements Model.Dates Model.Tree Model.Writer Model.Regex.
 
 Section Reporters.
   Context (NM : Num).
@@ -305,8 +305,17 @@ Section Reporters.
     r_panic := fun _ => None
   |}.
 
-  (** singleFoodReporter (reg -f PATTERN): patterns without regular-expression
-      metacharacters match as substrings; anything else is outside the model *)
+  (** singleFoodReporter (reg -f PATTERN): [regexp.MatchString(PATTERN, name)]
+      per food; the error of an invalid pattern comes from the first Process
+      call that has a food.  The pattern is parsed by [Model/Regex.v]
+      ([parse_regex]: the subset of RE2 people type; what it declines stays
+      outside the model).  A pattern made only of letters, digits, blanks, [/]
+      and non-ASCII bytes that is valid UTF-8 without U+FFFD takes a fast path:
+      a substring search on the bytes.  The two paths agree there
+      ([Proofs/RegexPlain.v], [plain_is_literal]: [parse_regex p] is the literal
+      of the runes of [p] and its [re_search] is [contains p]); without the
+      UTF-8 condition they do not (Go rejects an invalid byte in the pattern,
+      and a U+FFFD of the pattern matches an invalid byte of the name). *)
   Definition plain_pattern (p : bytes) : bool :=
     forallb (fun c => (is_digit c || ((97 <=? lower c) && (lower c <=? 122)) || (c =? 32) || (c =? 47)
                        || (128 <=? c))%N%bool) p.
@@ -317,11 +326,19 @@ Section Reporters.
       match ln_elems ln with
       | [] => (tt, [], None)
       | _ =>
-        if plain_pattern (rc_single_food c) then
+        if plain_pattern (rc_single_food c) && valid_utf8_no_fffd (rc_single_food c) then
           (tt, flat_map (fun nv => if contains (rc_single_food c) (fst nv)
                                    then [unchecked (fdate c (ln_time ln) ++ [c_tab] ++ fst nv ++ [c_tab] ++ f2 (snd nv) ++ [c_lf])]
                                    else []) (ln_elems ln), None)
-        else (tt, [], Some (EUnmodelled (b "regexp")))
+        else
+          match parse_regex (rc_single_food c) with
+          | ReOk re =>
+              (tt, flat_map (fun nv => if re_search re (fst nv)
+                                       then [unchecked (fdate c (ln_time ln) ++ [c_tab] ++ fst nv ++ [c_tab] ++ f2 (snd nv) ++ [c_lf])]
+                                       else []) (ln_elems ln), None)
+          | ReError => (tt, [], Some ERegexp)
+          | ReUnmodelled => (tt, [], Some (EUnmodelled (b "regexp")))
+          end
       end;
     r_flush := fun _ _ => [];
     r_panic := fun _ => None
